@@ -1,6 +1,9 @@
 """Reader for parsing a DiffX file into DOM objects."""
 
-from pydiffx.errors import DiffXParseError
+from inspect import getattr_static
+
+from pydiffx.dom.properties import OptionProperty
+from pydiffx.errors import DiffXParseError, DiffXUnknownOptionError
 from pydiffx.reader import DiffXReader
 from pydiffx.sections import Section
 
@@ -193,7 +196,10 @@ class DiffXDOMReader(object):
             pydiffx.dom.objects.DiffXChangeSection:
             The new change section.
         """
-        return diffx.add_change(**section_info['options'])
+        change_section = diffx.add_change()
+        self._set_container_options(change_section, section_info['options'])
+
+        return change_section
 
     def _read_file_section(self, diffx, section, section_info):
         """Read a file section.
@@ -214,7 +220,39 @@ class DiffXDOMReader(object):
             pydiffx.dom.objects.DiffXFileSection:
             The new file section.
         """
-        return diffx.changes[-1].add_file(**section_info['options'])
+        file_section = diffx.changes[-1].add_file()
+        self._set_container_options(file_section, section_info['options'])
+
+        return file_section
+
+    def _set_container_options(self, section, options):
+        """Set options read from a header on a container section.
+
+        Only attributes representing options of the section itself can be
+        set this way, and not its content or the options of its content
+        sections.
+
+        Args:
+            section (pydiffx.dom.objects.BaseDiffXContainerSection):
+                The container section to set options on.
+
+            options (dict):
+                The options read from the section's header.
+
+        Raises:
+            pydiffx.errors.DiffXUnknownOptionError:
+                An option is not valid for the section.
+        """
+        section_cls = type(section)
+
+        for name, value in options.items():
+            if not isinstance(getattr_static(section_cls, name, None),
+                              OptionProperty):
+                raise DiffXUnknownOptionError(
+                    '"%s" is not a valid option for section "%s"'
+                    % (name, section.section_id))
+
+            setattr(section, name, value)
 
     def _set_content_options(self, section, options):
         options.pop('length', None)
